@@ -5,3 +5,4 @@ CONSTANTS
   MaxBlocks = 3
   WriteConvention = "count"
   ReadConvention = "loop"
+  ResumeConvention = "advance"
